@@ -7,6 +7,7 @@ import Proofs.Parse
 import Proofs.OpenType
 import Props.C02
 import Props.C09
+import Proofs.KernelGate
 
 namespace Asn1.C18
 
@@ -134,5 +135,30 @@ example :
     (encodeOpen Generated.derEnc {} (.prim .oid) (.explicit .context 2) (.oid [2, 999, 3]) ti w).toOption
       = some [0x30, 0x11, 0x06, 0x03, 0x88, 0x37, 0x03, 0xa2, 0x0a, 0x30, 0x08, 0x02, 0x01, 0x05, 0x30, 0x03, 0x04, 0x01, 0x61] := by
   decide +kernel
+
+/-! ### at the source level: what an ANY field holds -/
+
+/-- **an untagged ANY field holds exactly the complete encoding of what it stands for, at the source level**: the translated
+    `AnyPayloadDecoder.valueDecoder` (the reads being reads of the complete input), entered as the item decoder enters it -
+    the mark on the element's first octet, the stream behind its header `hdr`, the declared length that of its contents -
+    answers `hdr ++ content`: not an octet of what precedes the element (`pre`) nor of what follows it (`rest`), and leaves
+    the stream right behind the element. For every `pre`, `hdr`, `content`, `rest`. -/
+theorem source_untagged_any_holds_whole_encoding (pre hdr content rest : Bytes) :
+    GenK.anyCapture ((pre.length : Nat) : Int) (Kernels.bytesInts (pre ++ (hdr ++ content) ++ rest))
+        (((pre.length + hdr.length : Nat)) : Int) true ((content.length : Nat) : Int) =
+      .ok (Kernels.bytesInts (hdr ++ content), ((pre.length + hdr.length + content.length : Nat) : Int)) :=
+  Kernels.anyCapture_untagged pre hdr content rest
+
+/-- a tagged ANY field (the header was its own tag): the contents only, the same end position -/
+theorem source_tagged_any_holds_contents (pre hdr content rest : Bytes) (mark : Int) :
+    GenK.anyCapture mark (Kernels.bytesInts ((pre ++ hdr) ++ content ++ rest))
+        (((pre.length + hdr.length : Nat)) : Int) false ((content.length : Nat) : Int) =
+      .ok (Kernels.bytesInts content, ((pre.length + hdr.length + content.length : Nat) : Int)) :=
+  Kernels.anyCapture_tagged pre hdr content rest mark
+
+/-- non-vacuity: in `30 06 02 01 05 04 01 61` the second member `04 01 61` under an untagged ANY: mark 5, stream at 7 -/
+example : GenK.anyCapture 5 [0x30, 0x06, 0x02, 0x01, 0x05, 0x04, 0x01, 0x61] 7 true 1 = .ok ([0x04, 0x01, 0x61], 8) := by rfl
+example : GenK.anyCapture 5 [0x30, 0x06, 0x02, 0x01, 0x05, 0x84, 0x01, 0x61] 7 false 1 = .ok ([0x61], 8) := by rfl
+example : GenK.anyCapture 5 [0x30, 0x06, 0x02, 0x01, 0x05, 0x04, 0x03, 0x61] 7 true 3 = .error (.lib "SubstrateUnderrunError") := by rfl
 
 end Asn1.C18
